@@ -359,7 +359,7 @@ var histCode = map[string]int{"order": 0, "total": 1, "delta": 2, "udelta": 3, "
 func (c *ctxT) runHist(cs Case) string {
 	ctx := int(bi(cs.Z[0]).Int64())
 	mk := func() (*chain, []*types.WorkObject) {
-		ch := defaultChain(ctx)
+		ch := chainFor(ctx, cs.ID)
 		for _, a := range cs.Anc {
 			ch.add(a, true)
 		}
